@@ -20,9 +20,22 @@ pub enum SinkOp {
 
 #[derive(Debug)]
 pub struct SinkErr;
+thread_local! {
+    /// which embedded_io::ErrorKind the sink's error reports (session op `k:<n>`); the library must hand every kind back alike
+    pub static ERR_KIND: RefCell<usize> = const { RefCell::new(0) };
+}
 impl embedded_io::Error for SinkErr {
     fn kind(&self) -> embedded_io::ErrorKind {
-        embedded_io::ErrorKind::Other
+        match ERR_KIND.with(|k| *k.borrow()) {
+            1 => embedded_io::ErrorKind::Unsupported,
+            2 => embedded_io::ErrorKind::BrokenPipe,
+            3 => embedded_io::ErrorKind::WriteZero,
+            4 => embedded_io::ErrorKind::TimedOut,
+            5 => embedded_io::ErrorKind::Interrupted,
+            6 => embedded_io::ErrorKind::OutOfMemory,
+            7 => embedded_io::ErrorKind::InvalidInput,
+            _ => embedded_io::ErrorKind::Other,
+        }
     }
 }
 
@@ -393,6 +406,7 @@ where
         format!("{}|{}|{}|{}|{}|{}|{}", r, text, cur, hist, pidx, c, s)
     };
     out.push(snapshot(cli, "ok", calls));
+    ERR_KIND.with(|k| *k.borrow_mut() = 0);
     for op in ops.split(';').filter(|s| !s.is_empty()) {
         let (name, arg) = op.split_once(':').unwrap_or((op, ""));
         match name {
@@ -430,6 +444,9 @@ where
             "y" => {
                 cli.verif_writer_mut().limit = arg.parse::<usize>().unwrap();
             }
+            "k" => {
+                ERR_KIND.with(|k| *k.borrow_mut() = arg.parse::<usize>().unwrap());
+            }
             _ => panic!("ses op {}", name),
         }
     }
@@ -437,6 +454,29 @@ where
 }
 
 fn ses_raw(cap: usize, hcap: usize, pi: usize, ops: &str) -> String {
+    if cap == 24 && hcap == 40 {
+        // owned arrays as buffers (`impl Buffer for [u8; N]`, what CliBuilder::default() itself uses) instead of borrowed slices
+        let built = CliBuilder::default()
+            .writer(Sink::new())
+            .command_buffer([0u8; 24])
+            .history_buffer([0u8; 40])
+            .prompt(PROMPTS[pi])
+            .build();
+        let mut cli = match built {
+            Ok(c) => c,
+            Err(_) => return format!("err|.|0|-|{}|-|?", pi),
+        };
+        let calls: Rc<RefCell<Vec<String>>> = Rc::new(RefCell::new(vec![]));
+        let calls2 = calls.clone();
+        let mut processor = RawCommand::processor(move |cli: &mut CliHandle<'_, Sink, SinkErr>, raw: RawCommand<'_>| {
+            match raw_handler(cli, raw, &calls2, || SinkErr, false) {
+                Ok(()) => Ok(()),
+                Err(embedded_cli::service::ProcessError::WriteError(e)) => Err(e),
+                Err(embedded_cli::service::ProcessError::ParseError(_)) => unreachable!(),
+            }
+        });
+        return run_session(&mut cli, &calls, ops, |cli, b| cli.process_byte::<RawCommand<'_>, _>(b, &mut processor));
+    }
     let mut cbuf = vec![0u8; cap];
     let mut hbuf = vec![0u8; hcap];
     // the default prompt is PROMPTS[1]: with it (and an odd command buffer) the deprecated constructor Cli::new is used instead of the builder
